@@ -634,6 +634,22 @@ impl Property for C04 {
     }
     fn gen(&self, seed: u64, tier: Tier) -> Vec<Scenario> {
         let mut r = Rng::stream(seed, "c04");
+        if r.chance(1, 60) {
+            // size family: one package with 100-300 candidates (storage growth, helper-variable numbering)
+            let n = r.range(100, 300);
+            let i = r.below(n);
+            let (w, mut reqs, exact) = crate::checks2::c15_world(&mut r, n, i);
+            reqs.push(Req::Single(exact[i]));
+            if r.chance(1, 2) {
+                reqs.push(Req::Single(exact[(i + 1 + r.below(n - 1)) % n]));
+            }
+            let mut sc = Scenario::basic(w, ProblemSpec { requirements: reqs, constraints: vec![], soft: vec![] });
+            let mut cr = Rng::stream(seed, "config");
+            gen_config(&mut cr, &mut sc, None);
+            sc.hash_salt = cr.next_u64();
+            sc.render = true;
+            return vec![sc];
+        }
         let mut base = match r.below(4) {
             0 | 1 => GenParams::conflict_rich(),
             2 => GenParams::wide(),
@@ -1127,31 +1143,78 @@ impl Property for C09 {
         if let Some(a) = duplicate_request(&rec, Kind::Deps, false) {
             v.violate("dup:deps", format!("get_dependencies({a}) requested twice on one solver"));
         }
-        // (c) exactness on conflict-free single solves
-        if sc.solves.len() == 1 && sc.solves[0].problem.soft.is_empty() && sc.solves[0].cancel.is_none() {
-            let p = hard_only(&sc.solves[0].problem);
-            let fc = first_choice(&sc.world, &p, &[]);
-            if fc.consistent_exclusive {
-                if let Outcome::Ok(_) = rec.outcomes[0] {
-                    let fetched: BTreeSet<u32> = dep_starts.iter().map(|x| x.2).collect();
-                    if fetched != fc.set {
-                        let extra: Vec<u32> = fetched.difference(&fc.set).copied().collect();
-                        let missing: Vec<u32> = fc.set.difference(&fetched).copied().collect();
-                        v.violate(
-                            if !extra.is_empty() { "exact:deps-extra" } else { "exact:deps-missing" },
-                            format!("conflict-free problem: dependencies fetched for {fetched:?}, solution/first-choice closure is {:?} (extra {extra:?}, missing {missing:?})", fc.set),
-                        );
+        // (c) exactness on conflict-free solves, also for later solves on a used solver: what this solve asks the
+        // provider for lies inside the first-choice closure (resp. the names it and the root mention), and
+        // everything of it that was not obtained by an earlier solve is asked for
+        {
+            let mut rid_info: BTreeMap<u64, (Kind, u32)> = BTreeMap::new();
+            let mut have_deps: BTreeSet<u32> = BTreeSet::new();
+            let mut have_cand: BTreeSet<u32> = BTreeSet::new();
+            let mut cur: Option<usize> = None;
+            let mut asked_deps: BTreeSet<u32> = BTreeSet::new();
+            let mut asked_cand: BTreeSet<u32> = BTreeSet::new();
+            let mut before_deps: BTreeSet<u32> = BTreeSet::new();
+            let mut before_cand: BTreeSet<u32> = BTreeSet::new();
+            for e in &rec.log {
+                match e {
+                    Ev::SolveBegin(i) => {
+                        cur = Some(*i);
+                        asked_deps.clear();
+                        asked_cand.clear();
+                        before_deps = have_deps.clone();
+                        before_cand = have_cand.clone();
                     }
-                    let mut names = sc.world.names_mentioned(&p.requirements, &p.constraints);
-                    for s in &fc.set {
-                        if let Some((r, c)) = sc.world.known_deps(*s) {
-                            names.extend(sc.world.names_mentioned(r, c));
+                    Ev::Start { rid, kind, arg, .. } => {
+                        rid_info.insert(*rid, (*kind, *arg));
+                        match kind {
+                            Kind::Deps => {
+                                asked_deps.insert(*arg);
+                            }
+                            Kind::Cand => {
+                                asked_cand.insert(*arg);
+                            }
+                            _ => {}
                         }
                     }
-                    let got: BTreeSet<u32> = starts_of(&rec, Kind::Cand).iter().map(|x| x.2).collect();
-                    if got != names {
-                        v.violate("exact:cand", format!("conflict-free problem: candidates fetched for {got:?}, names mentioned by root and solution are {names:?}"));
+                    Ev::Deliver { rid } => match rid_info.get(rid) {
+                        Some((Kind::Deps, a)) => {
+                            have_deps.insert(*a);
+                        }
+                        Some((Kind::Cand, a)) => {
+                            have_cand.insert(*a);
+                        }
+                        _ => {}
+                    },
+                    Ev::SolveEnd(i) if cur == Some(*i) => {
+                        let spec = &sc.solves[*i];
+                        if !spec.problem.soft.is_empty() || spec.cancel.is_some() || !matches!(rec.outcomes.get(*i), Some(Outcome::Ok(_))) {
+                            continue;
+                        }
+                        let p = hard_only(&spec.problem);
+                        let fc = first_choice(&sc.world, &p, &[]);
+                        if !fc.consistent_exclusive {
+                            continue;
+                        }
+                        let extra: Vec<u32> = asked_deps.difference(&fc.set).copied().collect();
+                        let missing: Vec<u32> = fc.set.iter().copied().filter(|x| !before_deps.contains(x) && !asked_deps.contains(x)).collect();
+                        if !extra.is_empty() {
+                            v.violate("exact:deps-extra", format!("solve #{i} (conflict-free): dependencies fetched for {asked_deps:?}, but the solution / first-choice closure is {:?}: {extra:?} were never needed", fc.set));
+                        } else if !missing.is_empty() {
+                            v.violate("exact:deps-missing", format!("solve #{i} (conflict-free): dependencies of {missing:?} were never obtained although they are installed"));
+                        }
+                        let mut names = sc.world.names_mentioned(&p.requirements, &p.constraints);
+                        for x in &fc.set {
+                            if let Some((r, c)) = sc.world.known_deps(*x) {
+                                names.extend(sc.world.names_mentioned(r, c));
+                            }
+                        }
+                        let extra_n: Vec<u32> = asked_cand.difference(&names).copied().collect();
+                        let missing_n: Vec<u32> = names.iter().copied().filter(|x| !before_cand.contains(x) && !asked_cand.contains(x)).collect();
+                        if !extra_n.is_empty() || !missing_n.is_empty() {
+                            v.violate("exact:cand", format!("solve #{i} (conflict-free): candidates fetched for {asked_cand:?}, names mentioned by root and solution are {names:?} (extra {extra_n:?}, missing {missing_n:?})"));
+                        }
                     }
+                    _ => {}
                 }
             }
         }
